@@ -62,6 +62,10 @@ def rule_w1(chk, prog, files, rule="W1"):
         # operand root of what is written: arg 1
         root = c.fn.root_name(op_base(c.args[1])) if len(c.args) > 1 and op_base(c.args[1]) is not None else "const"
         desc = "%s writes %s via %s" % (c.fn.path, root, short(c.path))
+        # a partial-write primitive writes *some* of the bytes: unless it sits in a loop that comes back for the rest, whatever a short
+        # write leaves over is never sent (returning the count to the caller does not send it either)
+        if used and re.search(r"AsyncWriteExt::(write|write_buf|write_vectored)$", c.path or "") and c.bb not in c.fn.reach_from(c.fn.succ[c.bb]):
+            used, how = False, "count is read but the call is not in a loop: a short write is not completed"
         chk.instance(rule, c.where(), desc + " @" + str(c.line), used, how)
         if not used:
             chk.finding(rule, c.fn.key, short(c.path), root, c.where(),
